@@ -43,8 +43,8 @@ SANDBOX_PARENT = "/tmp"
 
 
 # ---------------------------------------------------------------- implementation side
-def make_controller(cache=None):
-    """A Controller with all three transports registered (must run inside an event loop)."""
+def make_controller(cache=None, transports=("IP", "CoAP", "BLE")):
+    """A Controller with the given transports registered (must run inside an event loop)."""
     from unittest.mock import MagicMock
 
     from aiohomekit.controller import Controller
@@ -54,9 +54,12 @@ def make_controller(cache=None):
     from aiohomekit.controller.ip.controller import IpController
     c = Controller(async_zeroconf_instance=MagicMock(), char_cache=cache)
     cc = c._char_cache
-    c.transports[TransportType.IP] = IpController(char_cache=cc, zeroconf_instance=MagicMock())
-    c.transports[TransportType.COAP] = CoAPController(char_cache=cc, zeroconf_instance=MagicMock())
-    c.transports[TransportType.BLE] = BleController(char_cache=cc)
+    if "IP" in transports:
+        c.transports[TransportType.IP] = IpController(char_cache=cc, zeroconf_instance=MagicMock())
+    if "CoAP" in transports:
+        c.transports[TransportType.COAP] = CoAPController(char_cache=cc, zeroconf_instance=MagicMock())
+    if "BLE" in transports:
+        c.transports[TransportType.BLE] = BleController(char_cache=cc)
     return c
 
 
@@ -67,10 +70,10 @@ def controller_with(pairings):
     return c
 
 
-def load_pairings(path):
+def load_pairings(path, transports=("IP", "CoAP", "BLE")):
     """What a fresh Controller sees: ('ok', {alias: pairing_data}) | ('broken',) | ('other', exc)."""
     from aiohomekit.exceptions import ConfigLoadingError
-    c = make_controller()
+    c = make_controller(None, transports)
     try:
         c.load_data(path)
     except ConfigLoadingError:
@@ -1062,6 +1065,64 @@ def stream_pairs(ctx, drv, cov, viols, root, r):
             viols.append(violation("pairs:model-mismatch:data", "loaded pairing data differ from the model's", False,
                                    pairings=ps, impl=loaded[1], model=model[1],
                                    broken="correspondence Model/PersistRec.v load_pairing <-> Controller.load_pairing"))
+    # ---- files mixing available and unavailable transports in every order (independent oracle, no model involved):
+    # every well-formed pairing whose transport is registered must be loaded unchanged wherever it stands in the file,
+    # a pairing of an unavailable / unknown transport is skipped without ending the load, and after the controller
+    # saved again and restarted all of the loaded pairings are still there.
+    import itertools
+    mstats = dict(files=0, orders_exhaustive_up_to=3 if tier == "quick" else 4, registered_subsets=0,
+                  pairings_expected=0, unavailable_entries=0)
+    KINDS = ["IP", "BLE", "CoAP", "Thread"]                      # "Thread": no such transport in aiohomekit
+    subsets = [("IP", "CoAP", "BLE"), ("IP",), ("IP", "CoAP"), ("BLE",), ("CoAP", "BLE")]
+    mixed = []
+    for n in range(1, mstats["orders_exhaustive_up_to"] + 1):
+        for order in itertools.product(KINDS, repeat=n):
+            mixed.append(order)
+    for oi, order in enumerate(mixed):
+        for reg in (subsets if len(order) <= 2 or tier != "quick" else [subsets[0], subsets[1 + oi % 4]]):
+            ps = {}
+            for k, t in enumerate(order):
+                d = gen_pairing(r, t if t != "Thread" else "IP")
+                if t == "Thread":
+                    d["Connection"] = r.choice(["Thread", "Fake", "Matter"])
+                ps[ALIASES[k]] = d
+            want = {a: d for a, d in ps.items() if d["Connection"] in reg}
+            mstats["files"] += 1
+            mstats["pairings_expected"] += len(want)
+            mstats["unavailable_entries"] += len(ps) - len(want)
+            reset_dir(root, {"pairs.json": dumps_file(ps)})
+            loaded = load_pairings(path, reg)
+            cov.case("mixed|" + canon([order, reg]) , True,
+                     sample=dict(stream="pairs-mixed-transports", order=list(order), registered=list(reg),
+                                 loaded=sorted(loaded[1]) if loaded[0] == "ok" else loaded[0]) if mstats["files"] % 61 == 0 else None,
+                     mixed_len=len(order), mixed_registered=len(reg), mixed_result=loaded[0])
+            bad = None
+            if loaded[0] != "ok":
+                bad = ("load-fails", f"load_data fails ({loaded[0]}) on a file whose pairings are all well-formed")
+            elif loaded[1] != want:
+                missing = [a for a in want if a not in loaded[1]]
+                extra = [a for a in loaded[1] if a not in want]
+                changed = [a for a in want if a in loaded[1] and loaded[1][a] != want[a]]
+                bad = ("available-pairing-not-loaded" if missing else "unavailable-loaded" if extra else "fields-changed",
+                       f"file order {list(order)}, registered transports {list(reg)}: pairings {missing or extra or changed} "
+                       f"{'are not loaded' if missing else 'are loaded although their transport is unavailable' if extra else 'changed'} "
+                       f"(loaded {sorted(loaded[1])}, expected {sorted(want)})")
+            else:
+                # restart #2 after the controller saved what it holds
+                c2 = make_controller(None, reg)
+                c2.load_data(path)
+                c2.save_data(path)
+                again = load_pairings(path, reg)
+                if again[0] != "ok" or again[1] != want:
+                    bad = ("lost-after-resave", f"file order {list(order)}: after load + save_data + restart the controller holds "
+                           f"{sorted(again[1]) if again[0] == 'ok' else again[0]}, expected {sorted(want)}")
+            if bad:
+                key = "pairing_roundtrip:mixed-transports:" + bad[0]
+                if key not in seen:
+                    seen.add(key)
+                    viols.append(violation(key, bad[1], True, file_order=list(order), registered=list(reg), pairings=ps,
+                                           expected_aliases=sorted(want)))
+    stats["mixed_transports"] = mstats
     # broadcast key hex codec
     keys = [bytes(r.getrandbits(8) for _ in range(r.choice([0, 1, 16, 32]))) for _ in range(40)] + [bytes(range(256))]
     for k, a in zip(keys, drv.batch(["hexrt " + hx(k) for k in keys])):
